@@ -14,6 +14,11 @@ def design(work, name, off=None, maxrnd=1):
     return vlib.tlc(os.path.join(work, name), "Liveness", vlib.cfg_text(constants=c, invariants=["HonestRoundCommits"]), workers=16, timeout=3000)
 
 
+def timing(work, name, inv, count_delay=True, maxoff=6):
+    c = {"Nodes": '{"n1", "n2", "n3"}', "Phases": "7", "WaitOf": "<- MCWaitOf", "MaxOffset": str(maxoff), "Delta": "2", "G_CountDelay": "TRUE" if count_delay else "FALSE"}
+    return vlib.tlc(os.path.join(work, name), "MCTiming", vlib.cfg_text(constants=c, invariants=[inv]), workers=4, timeout=600)
+
+
 def main(tier):
     t0 = time.time()
     sd = vlib.seed()
@@ -27,6 +32,14 @@ def main(tier):
         for g in GUARDS:
             if not design(work, "d-" + g, off=g).violated:
                 raise vlib.Infra("Liveness.tla without %s shows no violation" % g)
+        # the clock side: the alignment hypothesis used by LiveTrace.tla suffices for timely delivery (and needs the delay term)
+        rt = timing(work, "timing", "AlignedIsEnough", maxoff=6 if tier == "quick" else 8)
+        if rt.violated or not rt.finished:
+            raise vlib.Infra("Timing.tla fails: %s %s" % (rt.violated, rt.error))
+        if not timing(work, "timing-nodelay", "AlignedIsEnough", count_delay=False).violated:
+            raise vlib.Infra("Timing.tla: alignment without the delay term is still enough (vacuous)")
+        if not timing(work, "timing-notbefore", "AlignedNotBefore").violated:
+            raise vlib.Infra("Timing.tla: NotBefore unexpectedly follows from alignment")
         d = os.path.join(work, "tv")
         os.makedirs(d)
         tr = os.path.join(d, "trace.ndjson")
@@ -57,7 +70,7 @@ def main(tier):
                 byzled += (x["leader"] == "b1")
         coverage = {"states": rd.distinct, "transitions": rd.generated, "exhaustive": True,
                     "constants": {"Liveness": "3 honest + 1 Byzantine of equal power, 2 values, every lock / certificate configuration over %d earlier rounds, every Byzantine contribution" % (2 if tier == "quick" else 3)},
-                    "guards_confirmed_necessary": GUARDS, "traces_validated_against_impl": 1, "trace_lines": len(recs), "trace_lines_accepted": consumed,
+                    "guards_confirmed_necessary": GUARDS + ["G_CountDelay"], "timing_states": rt.distinct, "traces_validated_against_impl": 1, "trace_lines": len(recs), "trace_lines_accepted": consumed,
                     "runs_by_prefix": {k: sum(1 for e in recs if e["prefix"] == k) for k in sorted({e["prefix"] for e in recs})},
                     "runs_by_byzantine_plan": {k: sum(1 for e in recs if e["byz"] == k) for k in sorted({e["byz"] for e in recs})},
                     "rounds_to_commit_histogram": {str(k): hist[k] for k in sorted(hist)}, "synchronous_honest_rounds_checked": sync_rounds, "rounds_led_by_byzantine": byzled,
